@@ -560,9 +560,27 @@ class _Sim(object):
         from behave.contrib.scenario_autoretry import patch_scenario_with_autoretry
         plan = self.world.get("autoretry", {})
         sim = self
+        whole = set(self.world.get("autoretry_outlines") or [])
+        from behave.model import ScenarioOutline
+        for so in feature.walk_scenarios(with_outlines=True):
+            if isinstance(so, ScenarioOutline) and self.elem_id(so) in whole and so.scenarios:
+                # the documented call with the outline itself: one call patches every row
+                n = plan.get(self.elem_id(so.scenarios[0]))
+                for scenario in so.scenarios:
+                    sid = self.elem_id(scenario)
+                    orig = scenario.run
+
+                    def counted(*a, _orig=orig, _sid=sid, **k):
+                        sim.attempt[_sid] = sim.attempt.get(_sid, -1) + 1
+                        sim.new_event("attempt", sid=_sid, n=sim.attempt[_sid])
+                        return _orig(*a, **k)
+                    scenario.run = counted
+                    ev["did"].append(["autoretry", sid, n])
+                patch_scenario_with_autoretry(so, max_attempts=n)
+                self.fire("autoretry_patched_outline")
         for scenario in feature.walk_scenarios():
             sid = self.elem_id(scenario)
-            if sid in plan:
+            if sid in plan and (sid.rsplit(".E", 1)[0] not in whole):
                 orig = scenario.run
 
                 def counted(*a, _orig=orig, _sid=sid, **k):
@@ -1119,6 +1137,17 @@ class PreHandler(logging.Handler):
         self.records.append(record.getMessage())
 
 
+class PreStreamHandler(logging.Handler):
+    """The application's own stream handler on the real stderr, installed before behave ran."""
+    _sim_name = "prestream"
+
+    def emit(self, record):
+        try:
+            SIM.tty_err.write(record.getMessage() + "\n")
+        except Exception:
+            pass
+
+
 def census(runner):
     """Census of the real model objects after the run."""
     from behave.model import Rule, ScenarioOutline, Scenario
@@ -1258,6 +1287,8 @@ def run_world(world, root, extra_formatters=None, keep_model=False, post=None):
         if world["cfg"].get("pre_handler"):
             pre = PreHandler()
             logging.getLogger().addHandler(pre)
+            if world["cfg"]["pre_handler"] == 2:
+                logging.getLogger().addHandler(PreStreamHandler())
         warnings.simplefilter("ignore")
         patches.set(behave.model, "time", SimTimeModule(clock), "model.time")
         patches.set(behave.reporter.summary, "time_now", clock.time, "summary.time_now")
